@@ -507,7 +507,8 @@ class CompGen:
     c = self.c
     if isinstance(t, str):
       cands = [a for a in self.atoms if a.t == t]
-      if cands and c.random() < 0.6:
+      itmps = env.get("itmps")
+      if cands and not itmps and c.random() < 0.6:
         a = c.choice(cands)
         return ["rd", a.path, a.w, t]
       args = []
@@ -516,6 +517,11 @@ class CompGen:
         if isinstance(ft, list):
           ok = False
           break
+        if itmps and isinstance(ft, int):
+          fit = sorted(n for n, v in itmps.items() if v < (1 << ft))
+          if fit and c.random() < 0.6:
+            args.append(["tmpv", c.choice(fit), ft])
+            continue
         args.append(self.value_expr(ft, depth - 1, env))
         if args[-1] is None:
           ok = False
@@ -573,6 +579,13 @@ class CompGen:
         stmts.append(st)
     if c.random() < P.get("p_tmp_patch", 0.12):
       stmts.extend(self.tmp_copy_and_patch(env))
+    if self.spec["structs"] and c.random() < P.get("p_itmp", 0.2):
+      # a temporary of IMPLICIT width (initialised from an int literal), used as a struct-constructor argument
+      name = "k%d" % self.ntmp
+      self.ntmp += 1
+      v = c.choice([0, 1, 1, 2, 3, 5, 6, 9])
+      stmts.append(["tmp", name, ["int", v]])
+      env.setdefault("itmps", {})[name] = v
     own_driven = []
     for (path, t) in targets:
       use_if = c.random() < P["p_if"]
